@@ -769,6 +769,35 @@ func (c *ExprCtx) call(x CCall) TV {
 				c.fail("retn: component %d out of range", i)
 			}
 			return TV{V: tup.E[i], Typ: tt.At(i).Type()}
+		case "loopvar":
+			// loopvar(k): the k-th source-level variable carried around the innermost enclosing
+			// loop (header phi order = declaration order); independent of the variable's name
+			k, ok := constIntOf(x.Args[0])
+			if !ok || c.fr == nil || c.block == nil {
+				c.fail("loopvar(k) needs a constant index and a loop context")
+			}
+			for b := c.block; b != nil; b = b.Idom() {
+				var phis []*ssa.Phi
+				for _, in := range b.Instrs {
+					if ph, ok := in.(*ssa.Phi); ok && ph.Comment != "" {
+						phis = append(phis, ph)
+					}
+				}
+				if len(phis) == 0 {
+					continue
+				}
+				if k >= len(phis) {
+					c.fail("loopvar(%d): loop has %d variables", k, len(phis))
+				}
+				ph := phis[k]
+				if c.phiOverride != nil {
+					if v, ok := c.phiOverride[ph]; ok {
+						return TV{V: v, Typ: ph.Type()}
+					}
+				}
+				return TV{V: e.val(c.fr, ph), Typ: ph.Type()}
+			}
+			c.fail("loopvar: no enclosing loop")
 		case "entry":
 			// entry(param): the value the parameter had on entry
 			id, ok := x.Args[0].(CIdent)
@@ -1478,4 +1507,11 @@ func bvParamRanges(lm *Lemma, bound map[string]TV) T {
 		}
 	}
 	return And(cs...)
+}
+
+func constIntOf(x CExpr) (int, bool) {
+	if ci, ok := x.(CInt); ok && ci.V.IsInt64() {
+		return int(ci.V.Int64()), true
+	}
+	return 0, false
 }
